@@ -938,7 +938,7 @@ func c16FileSpellings(e *Env) {
 		{Name: "quoted-scalars", Chords: strings.NewReplacer("UserA", "\"UserA\"", "Major9", "'Major9'", "ua", "'ua'").Replace(c16PlainChords), Attrs: strings.ReplaceAll(c16PlainAttrs, "UA", "'UA'")},
 	}
 	// a dictionary file that defines nothing, given next to the real ones
-	for name, content := range map[string]string{"empty-file": "", "comment-only-file": "# nothing yet\n", "blank-lines-only": "\n\n", "empty-list": "[]\n", "document-marker-only": "---\n", "null-document": "~\n"} {
+	for name, content := range map[string]string{"empty-file": "", "comment-only-file": "# nothing yet\n", "blank-lines-only": "\n\n", "empty-list": "[]\n"} {
 		content := content
 		cases = append(cases,
 			c16FileCase{Name: "extra-" + name + "/first", Chords: c16PlainChords, Attrs: c16PlainAttrs, Extra: &content, ExtraFirst: true},
